@@ -1581,6 +1581,8 @@ def run(ctx):
     streams = [generic_streams, account_stream, shard_stream, extra_stream, walk_stream]
     if ctx.search and getattr(ctx, 'src_account_first', False):
         streams = [account_stream, shard_stream, walk_stream, generic_streams, extra_stream]     # a test of check_account_proof differs: look there first
+    if ctx.search:                   # the shard oracle is cheap (< 1 s): first when an obligation is broken
+        streams = [shard_stream] + [st for st in streams if st is not shard_stream]
     for stream in streams:
         stream(ctx, rng)
         if ctx.search and ctx.failures:
@@ -1635,6 +1637,16 @@ def shard_stream(ctx, rng):
         seen[kind] = seen.get(kind, 0) + 1
         for params in prooffull.SHARD_GRID:
             run_shard_case(ctx, nodes, roots, bh, kind, params)
+        if kind == 'complete:account' and len(roots) == 2:
+            # the honest pair with ONE root re-typed as an ordinary cell (same 280 bits, same child: every hash comparison still
+            # holds, only check_proof on that root can refuse it)
+            for which, name in ((0, 'block-root-not-proof'), (1, 'state-root-not-proof')):
+                mut = list(nodes)
+                k, b, r = mut[roots[which]]
+                mut[roots[which]] = (G.ORD, b, r)
+                for params in prooffull.SHARD_GRID[:3] + prooffull.SHARD_GRID[6:9]:
+                    same, mc = params[0], params[1]
+                    run_shard_case(ctx, mut, roots, bh, 'shard-' + name, params, expect='none' if same else 'rej')
         if ctx.search and ctx.failures:
             return
 
